@@ -73,7 +73,12 @@ KEY_OF_FIX = {v: k for k, v in PEEL.items()}
 
 
 def floors(tier):
-    k = 1 if tier == "quick" else 4
+    if tier == "quick":
+        cl = {f"algo:{a}": 4 for a in ALGOS}
+        cl.update({"ag:NONE": 8, "ag:SIMPLE": 6, "ag:MUTATION_ANALYSIS": 3, "budget:iterations": 8, "budget:executions": 8,
+                   "hashseed:random": 4, "pair:same-hashseed": 3, "pair:different-hashseed": 24})
+        return {"evals": 30, "distinct": 24, "classes": cl}
+    k = 4
     cl = {f"algo:{a}": 6 * k for a in ALGOS}
     cl.update({"ag:NONE": 12 * k, "ag:SIMPLE": 8 * k, "ag:MUTATION_ANALYSIS": 3 * k})
     cl.update({"budget:iterations": 12 * k, "budget:executions": 12 * k, "hashseed:random": 5 * k, "pair:same-hashseed": 3,
@@ -130,8 +135,11 @@ def _random_case(rng):
 def plan(tier, seed):
     quick = tier == "quick"
     directed = _directed_cases()
+    if quick:
+        # two thirds of the module x algorithm grid (every module and every algorithm still occurs) + the same-hash-seed pairs
+        directed = [c for i, c in enumerate(directed) if i % 3 != 2 or c["hashseeds"][0] == c["hashseeds"][1]]
     rng = random.Random(seed * 1_000_003 + 16)
-    rand = [_random_case(rng) for _ in range(8 if quick else 240)]
+    rand = [_random_case(rng) for _ in range(4 if quick else 240)]
     # interleave so that every chunk gets a mix of cheap and expensive (MUTATION_ANALYSIS) cases
     n_chunks = 32 if quick else 96
     cases = directed + rand
